@@ -67,7 +67,7 @@ package protocol
 
 //@ func (*FrameWriter).Write
 //@ prop C07
-//@ modifies *
+//@ note no modifies clause: writing a frame changes no program state (io.Writer.Write is a trusted external effect)
 //@ after call Encode let enc = $ret0
 //@ after call Encode let encErr = $ret1
 //@ at call io.Writer.Write assert encErr == nil && $1 == enc && len(f.Payload) <= 16384
